@@ -507,4 +507,11 @@ Fixpoint accept_from (lenient : bool) (h : hstate) (evs : list event) (idx : N) 
   end.
 
 Definition accept_code (lenient : bool) (evs : list event) : N * N := accept_from lenient h_init evs 0.
-Definition accept (evs : list event) : bool := fst (accept_code false evs) =? 0.
+
+(* the verdict proper: the checker's state after the whole trace, or the violated rule *)
+Definition hmon (lenient : bool) (m : hstate + N) (e : event) : hstate + N :=
+  match m with inl h => hevent lenient h e | inr code => inr code end.
+Definition accept_state (lenient : bool) (evs : list event) : hstate + N :=
+  fold_left (hmon lenient) evs (inl h_init).
+Definition accept (evs : list event) : bool :=
+  match accept_state false evs with inl _ => true | inr _ => false end.
